@@ -100,7 +100,7 @@ inductive POp
 
 def runOp (s : LState) : POp → LState
   | .safe segs => s.write (assembleT segs)
-  | .plain b => s.write (bytesT b)
+  | .plain b => s.write (bytesU b)   -- a non-SafeFormatter method writes unsafe text
   | .detail => s.detail
 
 structure Entry where
